@@ -39,7 +39,8 @@ Lemma agree_tree_refuted_reachable :
   In (1, Continue [1;2;3]) (emitted (race_run false)) /\ In (2, Continue [2;3;4]) (emitted (race_run false)).
 Proof.
   split.
-  - apply run_ok_reachable; [apply reach_init|vm_compute; reflexivity].
+  - unfold race_run. apply (run_ok_reachable T [1;2;3;4] 3 false false [1;2] race_script ginit); [apply reach_init|].
+    vm_compute. reflexivity.
   - split; apply in_gconts; vm_compute; auto.
 Qed.
 
@@ -116,6 +117,7 @@ Lemma three_honest_complete :
   In (65535, Continue V3) (emitted ok_run).
 Proof.
   split.
-  - apply run_ok_reachable; [apply reach_init|vm_compute; reflexivity].
+  - unfold ok_run. apply (run_ok_reachable T M3 3 true true H3 ok_script ginit); [apply reach_init|].
+    vm_compute. reflexivity.
   - repeat split; apply in_gconts; vm_compute; auto.
 Qed.
